@@ -538,7 +538,7 @@ def main():
 
     # -------- D/E: API operations -------------------------------------------------------------------
     op_cases = []
-    n_ops = 0 if R else (15000 if T else 1500)      # bases; 60 % bring one sibling
+    n_ops = 0 if R else (15000 if T else 1700)      # bases; 60 % bring one sibling
 
     def mk_op(ai, kind, dtype, lut, upscale, quants, ofm, k=None, ifm_d=None, ew_mode=None, pk_first=None):
         w, h, d = ofm
@@ -627,6 +627,15 @@ def main():
         kind = rng.choice(["conv2d"] * 4 + ["depthwise"] * 2 + ["pooling"] * 2 + ["reduce_sum"] + ["elementwise"] * 4)
         dtype = rand_dtype(kind)
         ofm = (rand_dim(), rand_dim(), 1 if kind == "reduce_sum" else rand_depth())
+        if rng.random() < 0.16:
+            # one-row / one-column feature maps with a long other axis: the Conv1D accumulator rule looks at the OFM *height*,
+            # so width and height must not be confused anywhere between the query and the generator
+            long_ = rng.choice([16, 24, 32, 40, 63, 64, 128])
+            ofm = (1, long_, ofm[2]) if rng.random() < 0.5 else (long_, 1, ofm[2])
+            if rng.random() < 0.6 and kind != "reduce_sum":
+                ofm = (ofm[0], ofm[1], rng.choice([64, 96, 128, 130, 256, 276, 390]))
+            if rng.random() < 0.6 and kind in ("conv2d", "depthwise", "pooling"):
+                dtype = "i16"
         if rng.random() < 0.01:     # malformed: an empty axis
             z = rng.randrange(3)
             ofm = tuple(0 if i == z else v for i, v in enumerate(ofm))
